@@ -94,6 +94,18 @@ CHECKS += [
      "design_ref": "DESIGN.md 4/C09", "technique": TLA + " (Encoding.tla byte-level decoders / encoders)",
      "note": "UTF-8/16 arithmetic over the full scalar range is bound by exhaustive execution, TLC covers the decision tree and the boundary forms"},
 ]
+
+ENGINES += [
+    {"name": "region", "path": "spec/Region.tla spec/RegionTrace.tla vlib/checks/c07.py",
+     "serves_properties": ["C07"],
+     "kind_free_text": "line-level TLA+ machine of cpd.unc_off (marker comments, both markers in one comment, '#pragma asm' / '#asm', marker text outside a leading comment) with the writer's contract for ignored lines; TLC checks the bracketing facts for all line sequences <= 5 over 12 kinds and emits every sequence that has a region; each is rendered in several spellings and run with configurations drawn from all option kinds; region lines of input and output, the CT_IGNORED chunks of the hook and the text outside the regions after replacing their content are judged by the trace specification"},
+]
+CHECKS += [
+    {"id": "C07", "engine": "region", "level": "model_checking",
+     "text": "Region.tla model-checked over all 25k line sequences <= 5; every sequence <= 3 (4 thorough) with a region plus seeded longer ones is rendered (marker spellings, 11 raw-text shapes incl. tabs, trailing blanks, unbalanced brackets, lexer garbage, with/without final newline, top level / in a function) and run with the default and seeded configurations over ALL option kinds (mod_, cmt_, nl_, width); Verbatim (non-blank lines identical and in order, blank lines only emptied) and opacity (other region content leaves the outside unchanged) are decided by RegionTrace; IGNORED chunks of the tokenizer are compared with the model's region lines.",
+     "design_ref": "DESIGN.md 4/C07", "technique": TLA + " (Region.tla unc_off machine)",
+     "note": "alarms only for the documented usage (markers in comments that start their line, pragma lines on their own line); rendering in C; blank lines at the edge of a region are a known finding"},
+]
 _PENDING = "check not built yet in this commit (specification module planned in DESIGN.md 3.1); will be claimed when its check is quiet on the unchanged tree"
 NOT_APPLICABLE = [{"property_id": "C%02d" % i, "reason": _PENDING} for i in range(1, 21) if "C%02d" % i not in {c["id"] for c in CHECKS}]
 NOTES = "All checks: bin/check <ID> --tier quick|thorough; VERIF_SEED is honoured; evidence in /verif/evidence/<ID>.json; known findings in /verif/known_findings.json."
